@@ -43,3 +43,17 @@ contract(f"{I3}.delete_provider_data", shapes={"self": IF3, "data_provider": DEL
                   "registrations_untouched": "forall(lambda x: set_has(self.ldm_service.data_provider_its_aid, x) == old(set_has(self.ldm_service.data_provider_its_aid, x)))",
                   "unknown_identifier_fails_without_effect": "implies(data_provider.data_object_id == old(K(db(self))) and not old(map_has(db(self).database, K(db(self)))), result.result.value != 0)"},
          **S)
+
+# ------------------------------------------------------------------------------------------- update
+MQ = f"{L}.ldm_maintenance:LDMMaintenance"
+MSGOBJ = T.dict(cam=(T.opaque("object"), "optional"), denm=(T.opaque("object"), "optional"))
+contract(f"{MQ}.update_provider_data", shapes={"self": MAINT, "data_object_id": T.int(), "data_object": MSGOBJ},
+         requires=["db_wf(self.data_containers)", "data_object_id == K(self.data_containers)"],
+         modifies=["self.data_containers.database"], inline=[f"{DB}:DictionaryDataBase.update"],
+         ensures={"an_update_replaces_only_the_content_of_the_stored_record": "implies(old(map_has(self.data_containers.database, data_object_id)), map_has(self.data_containers.database, data_object_id) and map_get(self.data_containers.database, data_object_id)['dataObject'] is data_object and map_get(self.data_containers.database, data_object_id)['applicationId'] == old(map_get(self.data_containers.database, data_object_id)['applicationId']) and map_get(self.data_containers.database, data_object_id)['timeStamp'] == old(map_get(self.data_containers.database, data_object_id)['timeStamp']))"},
+         **S)
+contract(f"{SV}.update_provider_data", shapes={"self": SERVICE, "data_object_id": T.int(), "data_object": T.opaque("object")},
+         requires=["db_wf(self.ldm_maintenance.data_containers)", "data_object_id == K(self.ldm_maintenance.data_containers)"],
+         modifies=["self.ldm_maintenance.data_containers.database"], inline=[f"{MQ}.update_provider_data", f"{DB}:DictionaryDataBase.update"],
+         ensures={"reports_the_identifier_of_the_object_it_updated": "implies(old(map_has(self.ldm_maintenance.data_containers.database, data_object_id)), result == data_object_id)"},
+         **S)
